@@ -365,8 +365,33 @@ func runHistory(ops []Op, checkAll bool) (p *pool, vkey, what string) {
 				return p, "mutated-by:" + o.K, fmt.Sprintf("after %s an EARLIER value changed: %s", o, d)
 			}
 		}
+		if d := p.keysStable(); d != "" {
+			return p, "keys-rewritten-by-later-call", fmt.Sprintf("after %s: %s", o, d)
+		}
 	}
 	return p, "", ""
+}
+
+// keysStable: the key lists handed out by Keys() are values obtained from the maps; asking every map of the pool for
+// its keys and THEN reading the lists must show each list as it was returned.
+func (p *pool) keysStable() string {
+	type kept struct {
+		i        int
+		got, was []int
+	}
+	var ks []kept
+	for i, m := range p.m {
+		if !m.isSet {
+			k := m.mp.Keys()
+			ks = append(ks, kept{i, k, append([]int{}, k...)})
+		}
+	}
+	for _, k := range ks {
+		if !reflect.DeepEqual(append([]int{}, k.got...), k.was) {
+			return fmt.Sprintf("the key list %v returned by m%d.Keys() reads %v after Keys() was called on the other maps of the pool", k.was, k.i, k.got)
+		}
+	}
+	return ""
 }
 
 // vals includes 0: the zero value is what a "nothing emitted yet" sentinel looks like
